@@ -829,6 +829,20 @@ def strip_sid(evs):
     return [e[:3] if e[0] == "O" else e for e in evs]
 
 
+def strip_depth(evs):
+    out = []
+    for e in evs:
+        if e[0] == "S":
+            out.append(e[:3])
+        elif e[0] == "D":
+            out.append(e[:2])
+        elif e[0] == "O":
+            out.append(e[:2])
+        else:
+            out.append(e)
+    return out
+
+
 def canon(evs):
     vals = renumber([e[1] for e in evs if e[0] == "O"])
     out = []
@@ -914,8 +928,8 @@ def oracle(route, evs, err, labels, expect, cyc_names):
                 viol.append(("confinement", "the importer opened %r on the source filesystem" % nm, None))
         elif e[0] == "S":
             _, n, k, d = e
-            if d == 0:
-                depth_ok = False
+            if d <= 0:
+                depth_ok = False      # the harness could not determine import depths (marker function not found)
             if depth_ok:
                 del stack[max(d - 1, 0):]
                 if n in stack:
@@ -927,7 +941,8 @@ def oracle(route, evs, err, labels, expect, cyc_names):
                                  "reentrant" if n in reentered else None))
                 stack.append(n)
             elif n in completed:
-                viol.append(("once", "the body of module %r was run again after it had completed" % n, None))
+                viol.append(("once", "the body of module %r was run again after it had completed" % n,
+                             "reentrant" if n in cyc_names else None))
         elif e[0] == "D":
             _, n, d = e
             if depth_ok:
@@ -935,7 +950,8 @@ def oracle(route, evs, err, labels, expect, cyc_names):
                 if stack and stack[-1] == n:
                     stack.pop()
             if n in completed:
-                viol.append(("once", "the body of module %r completed twice" % n, "reentrant" if n in reentered else None))
+                viol.append(("once", "the body of module %r completed twice" % n,
+                             "reentrant" if (n in reentered or (not depth_ok and n in cyc_names)) else None))
             completed.add(n)
         elif e[0] == "O":
             v, d, sid = e[1], e[2], e[3]
@@ -946,7 +962,7 @@ def oracle(route, evs, err, labels, expect, cyc_names):
                 if nm in ids and ids[nm] != i:
                     n = bytes.fromhex(nm[2:]) if nm[2:] != "" else b""
                     viol.append(("same-object", "module %r was observed as two different module objects" % n,
-                                 "reentrant" if n in reentered else None))
+                                 "reentrant" if (n in reentered or (not depth_ok and n in cyc_names)) else None))
                 ids.setdefault(nm, i)
             if sid > 0:
                 main_obs[sid] = v
@@ -982,6 +998,10 @@ def run(res):
     if tools is None:
         return
     proved = C.prove(res, PROP)
+    if proved and res.tier == "thorough":
+        if not C.coqchk(res, PROP):
+            proved = False
+            res.broken = {"log_tail": "coqchk rejected the .vo closure: " + res.coverage.get("coqchk", {}).get("tail", ""), "errors": []}
     model, err = C.build_extracted("importer", "ExtractImporter.v", "importer_driver.ml")
     if not model:
         res.violation({"property": PROP, "kind": "model-build-failed", "stage": "extraction", "log": err[-3000:],
@@ -1025,9 +1045,9 @@ def body(res, tools, work, proved):
     tier = res.tier
     rng = C.Rng(res.seed)
     cov = res.coverage
-    n_texts = 700 if tier == "quick" else 40000
-    n_trees = 120 if tier == "quick" else 4000
-    mains_per_tree = 6 if tier == "quick" else 14
+    n_texts = 700 if tier == "quick" else 30000
+    n_trees = 120 if tier == "quick" else 1000
+    mains_per_tree = 6 if tier == "quick" else 10
     known = load_known()
     known_classes = {k.get("class"): k for k in known if k.get("class")}
 
@@ -1241,6 +1261,8 @@ def compare_routes(o, mevs, outcome, idx, case, corr_diffs, stats):
         evs = parse_real(r["events"], idx)
         got = canon(strip_sid([e for e in evs if e[0] != "ESC"]))
         exp = canon(want)
+        if o.get("marker") == "unavailable":
+            got, exp = strip_depth(got), strip_depth(exp)
         re_err = ERRMAP_REAL.get(r["err"], r["err"])
         if re_err == "panic-depth" and mo_err == "panic-depth":
             # runaway import cycle: the model tracks the frame stack only; the real VM may overflow its
